@@ -61,3 +61,20 @@ def facts(repo, f, H):
     if 'GetEntity(prop) + "/" + strconv.FormatInt(prop.Metadata.ModRevision, 10)' not in pid:
         raise ValueError("GetPropertyID: unrecognised shape")
     f["docIdIsEntityAndRevision"] = True
+    # Merkle leaf names: "%s/%s/%s" and its inverse SplitN(entity, "/", 3)
+    rp2 = H.read(repo, "banyand/property/db/repair.go")
+    bl = H.func_body(repo, "banyand/property/db/repair.go", r"func \(r \*repair\) buildLeafNodeEntity\(")
+    m = re.search(r'fmt\.Sprintf\("%s(.)%s(.)%s", group, name, entityID\)', bl)
+    if not m or m.group(1) != m.group(2):
+        raise ValueError("buildLeafNodeEntity: unrecognised shape")
+    f["leafSep"] = ord(m.group(1))
+    pl = H.func_body(repo, "banyand/property/db/repair.go", r"func \(r \*repair\) parseLeafNodeEntity\(")
+    m2 = re.search(r'strings\.(SplitN\(entity, "(.)", (\d+)\)|Split\(entity, "(.)"\))', pl)
+    if not m2 or "len(parts) != 3" not in pl:
+        raise ValueError("parseLeafNodeEntity: unrecognised shape")
+    if m2.group(2) is not None:
+        if ord(m2.group(2)) != f["leafSep"]:
+            raise ValueError("parseLeafNodeEntity splits at another separator than buildLeafNodeEntity writes")
+        f["leafParts"] = int(m2.group(3))
+    else:
+        f["leafParts"] = 0   # unbounded split: an id containing the separator cannot be parsed back
